@@ -34,7 +34,7 @@ def evaluate(area, exe, ops, case_start, harness_args=(), oracle=True, model=Tru
     return impl, mod, spec, faults
 
 
-def first_problem(ops, impl, mod, spec, model_fault_ok=False):
+def first_problem(ops, impl, mod, spec, impl_view=None, skip_model=None):
     """The problem of a case: the first fault / spec violation of the implementation if there is one
     (a concrete failing input), otherwise the first model/implementation difference."""
     first_diff = None
@@ -46,16 +46,22 @@ def first_problem(ops, impl, mod, spec, model_fault_ok=False):
             return i, "fault", a
         if spec is not None and i < len(spec) and spec[i].startswith("violates"):
             return i, "spec", spec[i]
-        if first_diff is None and mod is not None and (i >= len(mod) or mod[i] != a):
-            first_diff = (i, "diff", f"impl: {a[:300]} | model: {(mod[i] if i < len(mod) else 'MISSING')[:300]}")
+        if first_diff is None and mod is not None:
+            m = mod[i] if i < len(mod) else "MISSING"
+            if skip_model is not None and skip_model(m):
+                continue
+            av = impl_view(a) if impl_view else a
+            if m != av:
+                first_diff = (i, "diff", f"impl: {av[:300]} | model: {m[:300]}")
     return first_diff
 
 
-def shrink_case(area, exe, case, kind, case_start, harness_args=(), budget=150, oracle=True, model=True, env=None):
+def shrink_case(area, exe, case, kind, case_start, harness_args=(), budget=150, oracle=True, model=True, env=None,
+                impl_view=None, skip_model=None):
     """Greedy delta debugging of one case: drop ops (never the first), keep the failure class."""
     def fails(c):
         impl, mod, spec, _ = evaluate(area, exe, c, case_start, harness_args, oracle, model, env)
-        p = first_problem(c, impl, mod, spec)
+        p = first_problem(c, impl, mod, spec, impl_view, skip_model)
         return p is not None and p[1] == kind
     cur = list(case)
     n = 0
@@ -73,7 +79,7 @@ def shrink_case(area, exe, case, kind, case_start, harness_args=(), budget=150, 
 
 
 def correspond(chk, area, exe, ops, case_start=("init", "case"), harness_args=(), oracle=True, model=True,
-               classify=None, sig_of=None, max_reports=6, env=None, nontrivial=None):
+               classify=None, sig_of=None, max_reports=6, env=None, nontrivial=None, impl_view=None, skip_model=None):
     """Run the three-way comparison, record violations on `chk`, update coverage counters.
     `classify(op, impl_line)` -> tag for the input distribution; `sig_of(kind, detail, case)` -> signature dict
     used to match known findings.  Returns dict(spec_violations, faults, diffs)."""
@@ -87,7 +93,10 @@ def correspond(chk, area, exe, ops, case_start=("init", "case"), harness_args=()
     for case in cases:
         n = len(case)
         sl = slice(idx, idx + n)
-        p = first_problem(case, impl[sl], mod[sl] if mod is not None else None, spec[sl] if spec is not None else None)
+        p = first_problem(case, impl[sl], mod[sl] if mod is not None else None, spec[sl] if spec is not None else None,
+                          impl_view, skip_model)
+        if mod is not None and skip_model is not None:
+            stats["unmodelled_lines"] += sum(1 for m in mod[sl] if skip_model(m))
         for j, op in enumerate(case):
             chk.cov["evaluations"] += 1
             tag = classify(op, impl[idx + j]) if classify else op.split(" ", 1)[0]
@@ -110,9 +119,9 @@ def correspond(chk, area, exe, ops, case_start=("init", "case"), harness_args=()
         if reported >= max_reports:
             break
         small = shrink_case(area, exe, case[:i + 1] if kind != "diff" else case[:i + 1], kind, case_start,
-                            harness_args, oracle=oracle, model=model, env=env)
+                            harness_args, oracle=oracle, model=model, env=env, impl_view=impl_view, skip_model=skip_model)
         si, sm, ss, _ = evaluate(area, exe, small, case_start, harness_args, oracle, model, env)
-        sp = first_problem(small, si, sm, ss) or (len(small) - 1, kind, detail)
+        sp = first_problem(small, si, sm, ss, impl_view, skip_model) or (len(small) - 1, kind, detail)
         sig = sig_of(sp[1], sp[2], small) if sig_of else {"kind": sp[1]}
         sk = str(sorted(sig.items()))
         if sk in sigs:
